@@ -198,7 +198,7 @@ def photometry(flags, base_flux, pset, conf_rot=0):
     so that both violated and satisfied limits occur."""
     n = len(flags)
     fac_pat = [[1, 1, 1, 1, 1], [0.8, 1, 3, 1, 0.8], [3, 0.8, 1, 3, 1], [1, 3, 0.8, 0.8, 3]][pset % 4]
-    err_pat = [[.1, .1, .1, .1, .1], [.02, .1, .5, .1, .02], [.5, .02, .1, .5, .1], [.1, .5, .02, .02, .5]][pset % 4]
+    err_pat = [[.1, .1, .1, .1, .1], [.005, .1, .5, .1, .02], [.5, .02, .1, .5, .1], [.1, .5, .005, .02, .5]][pset % 4]          # (0.005: signal-to-noise 200)
     confs = [0.0, 0.3, 0.9, 1.0]
     fl = np.zeros(n)
     er = np.zeros(n)
